@@ -46,6 +46,8 @@ def gen_extras(rng, name, ast):
 def gen_crits(rng, ast, n=None, names=None):
     if n is None:
         n = rng.choice([0, 1, 1, 1, 2, 2, 2, 3, 4])
+        if names is None and rng.random() < 0.05:
+            n = rng.choice([8, 9, 9])          # (nearly) all nine criteria: the last positions are used
     names = names or rng.sample(ALL, n)
     return [(nm, gen_extras(rng, nm, ast)) for nm in names]
 
